@@ -240,6 +240,8 @@ impl Display for RustFieldType {
             RustFieldType::F64 => write!(f, "f64"),
             RustFieldType::Bool => write!(f, "bool"),
             RustFieldType::Other(OtherRustType { name, module }) => {
+                // the struct of a type called `self` is emitted as `Self_` (see xml_name_to_rust_name)
+                let name = rename_keywords(name);
                 if let Some(module) = module {
                     write!(f, "{module}::{name}")
                 } else {
